@@ -698,6 +698,7 @@ func reportFindings(c *ev.Check, found map[string]*foundKey) {
 		f     *foundKey
 		ops   []Op
 		class map[string]bool
+		ext   int // ops of the extended alphabet (histories over plainer ops are reported first)
 	}
 	var items []item
 	for k, f := range found {
@@ -715,12 +716,23 @@ func reportFindings(c *ev.Check, found map[string]*foundKey) {
 				// define(...) alone subsumes the same history with loadfile(...), not vice versa
 				it.class[opDefine] = true
 			}
+			if o.K == opHandler {
+				// a handler body defines, requires a file and instantiates F: a history that
+				// fails with one of the plain ops subsumes the same history with a handler op
+				it.class[opDefine], it.class[opLoad], it.class["use"] = true, true, true
+			}
+			if o.ext() {
+				it.ext++
+			}
 		}
 		items = append(items, it)
 	}
 	sort.Slice(items, func(i, j int) bool {
 		if items[i].f.rec.Size != items[j].f.rec.Size {
 			return items[i].f.rec.Size < items[j].f.rec.Size
+		}
+		if items[i].ext != items[j].ext {
+			return items[i].ext < items[j].ext
 		}
 		return items[i].key < items[j].key
 	})
